@@ -239,9 +239,13 @@ class C18con(vlib.HistoryProp):
         rng = random.Random(seed)
         defects = self.defects_enabled()
         cases = []
-        for p in sorted(glob.glob(os.path.join(vlib.VERIF, "corpus", "C18con", "*.txt"))):
-            lines = [l.strip() for l in open(p) if l.strip() and not l.startswith("#")]
-            cases.append(Case("c_" + os.path.basename(p)[:-4], lines[0], lines[1:], "corpus"))
+        pats = [os.path.join(vlib.VERIF, "corpus", "C18con", "*.txt")]
+        if defects:
+            pats.append(os.path.join(vlib.VERIF, "corpus", "C18con", "defects", "*.txt"))
+        for pat in pats:
+            for p in sorted(glob.glob(pat)):
+                lines = [l.strip() for l in open(p) if l.strip() and not l.startswith("#")]
+                cases.append(Case("c_" + os.path.basename(p)[:-4], lines[0], lines[1:], "corpus"))
         ex = []
         if tier == "quick":
             for name in ("grow", "copy", "count"):
